@@ -97,3 +97,40 @@ fn k_read_string_nopanic_2() {
     core::mem::forget(s);
     kani::cover!(true, "reachable");
 }
+
+//@unit props=C17 label=B tier=quick native=1 fn=common_file_operations::read_string bound="exhaustive by execution: every byte string of length 0..2, every string of length 3..5 over the alphabet {00, 'a', 7F, 80, A9, C3, E2, F0, FF}, and those strings followed by 0..3 NULs and a tail"
+//@desc read_string never panics; valid UTF-8 comes back without its leading/trailing NULs and otherwise unchanged
+#[test]
+fn native_read_string_bytes() {
+    let mut cases = 0u64;
+    let check = |v: Vec<u8>| {
+        let shown = v.clone();
+        let r = std::panic::catch_unwind(move || read_string(v));
+        match r {
+            Err(_) => panic!("read_string panicked on {shown:02x?}"),
+            Ok(s) => {
+                if let Ok(t) = std::str::from_utf8(&shown) {
+                    assert_eq!(s, t.trim_matches('\0'), "valid UTF-8 {shown:02x?} comes back without its outer NULs");
+                }
+                assert!(!s.starts_with('\0') && !s.ends_with('\0'), "no NUL left at either end for {shown:02x?}");
+            }
+        }
+    };
+    check(vec![]); cases += 1;
+    for a in 0..=255u8 { check(vec![a]); cases += 1; for b in 0..=255u8 { check(vec![a, b]); cases += 1; } }
+    let al = [0x00u8, b'a', 0x7F, 0x80, 0xA9, 0xC3, 0xE2, 0xF0, 0xFF];
+    for n in 3..=5usize {
+        let mut idx = vec![0usize; n];
+        loop {
+            let base: Vec<u8> = idx.iter().map(|i| al[*i]).collect();
+            check(base.clone()); cases += 1;
+            if n <= 4 {
+                for z in 1..=3usize { let mut w = base.clone(); w.extend(std::iter::repeat(0u8).take(z)); w.extend_from_slice(b"tail"); check(w); cases += 1; }
+            }
+            let mut k = 0;
+            while k < n { idx[k] += 1; if idx[k] < al.len() { break; } idx[k] = 0; k += 1; }
+            if k == n { break; }
+        }
+    }
+    println!("NATIVE native_read_string_bytes cases={cases}");
+}
